@@ -12,6 +12,6 @@ func init() {
 		pRetryExact: 30, pRetryConfl: 14, pStaleAuth: 3, pEqualAuth: 35, pFenced: 1,
 		pScenario: 15, pSmallCap: 55, maxOps: 32, pWrongExpect: 3,
 		pBareQuorum: 20, pLostAcks: 25, pMinorityResp: 15,
-		pRepair: 3, pMdb: 8, pSameTerm: 3,
+		pRepair: 3, pMdb: 8, pSameTerm: 3, pUnkeyed: 4,
 	}), NewRunner: func() Runner { return newReplRunner() }})
 }
